@@ -845,9 +845,12 @@ def monitors(pid, s):
             if res == "ok" or rep is not None:
                 bad.append("nothing can be started, yet result=%s and a child ran %r" % (res, (rep or {}).get("execfn")))
             else:
-                last = fs.get(cands[-1], ENOENT) if cands else ENOENT
-                if res != "err io:%d" % last:
-                    bad.append("nothing can be started: result %s, expected the operating-system error %d of the last candidate" % (res, last))
+                # the property says "fails with the operating-system error": the error of one of the candidates that
+                # were tried (which one -- the library reports the last -- is the model's business: a different choice
+                # breaks the tie with Lib/ExecArgs.v, not the property)
+                errs = sorted(set(fs.get(c, ENOENT) for c in cands)) if cands else [ENOENT]
+                if res not in ["err io:%d" % e for e in errs]:
+                    bad.append("nothing can be started: result %s, expected the operating-system error of a candidate (one of %s)" % (res, errs))
             if tried != cands:
                 bad.append("paths tried %s, expected every candidate in order %s" % (short(tried), short(cands)))
             if zombies > 0:
